@@ -159,6 +159,10 @@ def run(tier):
     # calibration behaviours
     r = core.run_tlc("VoronoiCalibration.tla", cfg="mc/VoronoiCalibration.cfg", workers=1)
     rep.add_mc("VoronoiCalibration (all timing outcomes of the bisection)", r)
+    rp = core.run_tlc("VoronoiCalibration.tla", cfg="mc/VoronoiCalibration_pinned.cfg", workers=1)
+    if rp["error"] != "invariant-violated":
+        raise core.Machinery("pinned validation rule (0 < full_fraction) not rejected by the calibration model")
+    rep.cov["parts"]["VoronoiCalibration[pinned validation rule]"] = "violates RefitAccepted as expected (outcome 0 is not a valid parameter)"
     beh = [b for b in r["records"] if b.get("k") == "B"]
     if len(beh) != 128:
         raise core.Machinery("expected 128 calibration behaviours, got %d" % len(beh))
